@@ -148,6 +148,8 @@ def build_argv(C):
         a += ["--untrimmed-output", ("unI" if il else "un1") + ext] + (["--untrimmed-paired-output", "un2" + ext] if two else [])
     if C.get("info"):
         a += ["--info-file", "info.tsv"]
+    if C.get("aux"):
+        a += ["--rest-file", "rest.txt", "--wildcard-file", "wc.txt"]
     demux = C.get("demux", "none")
     if demux == "normal":
         a += ["-o", "dm1-{name}" + ext] + (["-p", "dm2-{name}" + ext] if paired else [])
@@ -292,10 +294,10 @@ class Sampler:
                 i = nid[0]
                 nid[0] += 1
                 return dict(id=i, name=codes(a.name), cls="linked", f=f, b=b, freq=bool(a.front_required),
-                            breq=bool(a.back_required))
+                            breq=bool(a.back_required), aseq=[])
             i = wrap(a)
             cls = "anywhere" if isinstance(a, A.AnywhereAdapter) else ("front" if isinstance(a, A.FrontAdapter) else "back")
-            return dict(id=i, name=codes(a.name), cls=cls, f=-1, b=-1, freq=False, breq=False)
+            return dict(id=i, name=codes(a.name), cls=cls, f=-1, b=-1, freq=False, breq=False, aseq=codes(a.sequence))
         self.desc1 = [describe(a) for a in adapters]
         self.desc2 = [describe(a) for a in adapters2]
 
@@ -490,6 +492,18 @@ def observe_run(C, reads1, reads2, workdir):
                 row = dict(name=codes(f[0]), errors=int(f[1]), rs=int(f[2]), re=int(f[3]), before=codes(f[4]), mid=codes(f[5]),
                            after=codes(f[6]), adname=codes(f[7]), qb=codes(f[8]), qm=codes(f[9]), qa=codes(f[10]), rc=codes(f[11]))
             rows_by_read.setdefault(k, []).append(row)
+    # ---- rest / wildcard files
+    aux_by_read = {"rest": {}, "wild": {}}
+    if C.get("aux"):
+        for key, fname in (("rest", "rest.txt"), ("wild", "wc.txt")):
+            text = (res.files.get(fname) or b"").decode("latin-1")
+            for line in text.split("\n"):
+                if line == "":
+                    continue
+                first, _, nm = line.partition(" ")
+                m = idre.search(nm)
+                k = int(m.group(1)) if m else -1
+                aux_by_read[key].setdefault(k, []).append([codes(first), codes(nm)])
     # ---- per read
     blank = dict(name=[], seq=[], qual=[])
     reads = []
@@ -508,7 +522,7 @@ def observe_run(C, reads1, reads2, workdir):
                   pos2=[f2["fname"].replace("2", "#", 1), f2["pos"]] if f2 else ["", -1],
                   demux1=codes(f1["n1"]) if f1 and f1["n1"] and f1["n1"] != "unknown" else [],
                   demux2=codes(f1["n2"]) if f1 and f1["n2"] and f1["n2"] != "unknown" else [],
-                  rows=rows_by_read.get(k, []))
+                  rows=rows_by_read.get(k, []), rest=aux_by_read["rest"].get(k, []), wild=aux_by_read["wild"].get(k, []))
         # table rows related to this read: searched sequences that are substrings of the read or its reverse complement
         keys = [r1[1].upper(), revcomp(r1[1]).upper()] + ([r2[1].upper(), revcomp(r2[1]).upper()] if paired else [])
         table = [row for (i, s), row in sampler.calls.items() if any(s.upper() in kk for kk in keys)]
